@@ -799,3 +799,53 @@ twin('C16', 'c16-twin-loop-form', BASICS,
      "    return [await task for task in tasks]",
      "    return [(await task) for task in tasks]",
      'parenthesised await')
+
+# ------------------------------------------------------------------------- C15
+HANDLERPY = 'usim/_core/handler.py'
+INITPY = 'usim/__init__.py'
+mutant('C15', 'c15-assign-no-finally', HANDLERPY,
+       "        try:\n            yield\n        finally:\n            self.loop = outer_loop",
+       "        yield\n        self.loop = outer_loop",
+       'P StateHandler.assign', 'a failing simulation leaves its loop installed in the thread')
+mutant('C15', 'c15-assign-restores-missing', HANDLERPY,
+       "        finally:\n            self.loop = outer_loop",
+       "        finally:\n            self.loop = MissingLoop()",
+       'P StateHandler.assign', 'a nested run() detaches the enclosing simulation')
+mutant('C15', 'c15-state-not-thread-local', HANDLERPY,
+       "class StateHandler(threading.local):", "class StateHandler(object):",
+       'X StateHandler', 'simulations in different threads share one current loop')
+mutant('C15', 'c15-module-level-registry', LOOP,
+       "# Coroutine Return Type\nRT = TypeVar('RT')",
+       "# Coroutine Return Type\nRT = TypeVar('RT')\n_ALL_LOOPS = []",
+       'X module-state', 'a process-wide list of loops')
+mutant('C15', 'c15-class-level-pending', LOOP,
+       "    __slots__ = ('time', 'turn', 'activity', '_annotations', '_activations', '_pending')\n",
+       "    __slots__ = ('time', 'turn', 'activity', '_annotations', '_activations', '_pending')\n    _shared = collections.deque()\n",
+       'X class-state', 'a class level deque shared by all loops')
+mutant('C15', 'c15-run-events-early-exit', LOOP,
+       "            while pending:\n                activation = pending.popleft()\n                if activation:",
+       "            while pending:\n                activation = pending.popleft()\n                if self.turn > 10000:\n                    return\n                if activation:",
+       'Q', 'run() returns although activities can still progress')
+mutant('C15', 'c15-kernel-swallows', LOOP,
+       "        except StopIteration as err:\n            if err.args:",
+       "        except Exception:\n            pass\n        except StopIteration as err:\n            if err.args:",
+       'H', 'exceptions of root activities are swallowed')
+mutant('C15', 'c15-leak-not-reported', LOOP,
+       "            if err.args:\n                # async def ... return foo -> StopIteration.args == (foo,)\n                raise ActivityLeak(target, signal, err.args[0]) from err",
+       "            pass",
+       'H _run_coroutine', 'a returned value of a root activity is lost silently')
+mutant('C15', 'c15-roots-reversed', LOOP,
+       "        for coroutine in coroutines:\n            self._activations.push(self.time, Activation(coroutine))",
+       "        for coroutine in reversed(coroutines):\n            self._activations.push(self.time, Activation(coroutine))",
+       'O', 'roots start in reverse order')
+mutant('C15', 'c15-run-ignores-start', INITPY,
+       "    loop = _Loop(*activities, start=start)", "    loop = _Loop(*activities)",
+       'P usim.run', 'start time ignored')
+mutant('C15', 'c15-loop-run-outside-assign', LOOP,
+       "        with __LOOP_STATE__.assign(self):\n            self._run_events()",
+       "        with __LOOP_STATE__.assign(self):\n            pass\n        self._run_events()",
+       'P Loop.run', 'events run without a current loop')
+twin('C15', 'c15-twin-constant-added', LOOP,
+     "# Coroutine Return Type\nRT = TypeVar('RT')",
+     "# Coroutine Return Type\nRT = TypeVar('RT')\n_DEFAULT_START = 0\n_NAMES = ('time', 'turn')",
+     'module level constants are fine')
